@@ -226,3 +226,68 @@ Theorem C02_model_moments_lump_any_sound_backend :
     = accumulate_raw OpsR expm k SsC SlastC RsC (vmat OpsR alphaL P) lam ts.
 Proof. exact: accumulate_lumping. Qed.
 Print Assumptions C02_model_moments_lump_any_sound_backend.
+
+(* ------------------------------------------------------------------------------------------------
+   Stated DIRECTLY about the translated source, on ANY piecewise-constant demography
+   (analysis/SourceLinear.v, analysis/SourceCovariance.v; gen/LoopsGen.v = _accumulate, gen/MomentsGen.v = accumulate,
+   gen/RewardsGen.v = the reward vectors - all regenerated from the source on every run):
+
+   C02_source_expected_sfs_sums_to_branch_length          for any reward r0 (the unit reward of SFSDistribution; a deme reward for
+   C02_source_expected_folded_sfs_sums_to_branch_length   sfs.demes) the expected (un)folded spectrum sums to the expected
+                                                          r0-weighted total branch length
+   C02_source_sfs_covariances_sum_to_branch_length_variance
+                                                          the entries of the covariance matrix of the spectrum, as get_cov computes
+                                                          them (centred, permutation-averaged), sum to the variance of the
+                                                          (r0-weighted) total branch length                                   *)
+From PG Require Import proofs.RewardProofs gen.RewardsGen proofs.GenRewardsEquiv gen.NpLoops analysis.SourceLinear analysis.SourceCovariance.
+Local Notation Q0 := (QArith_base.Qmake BinNums.Z0 BinNums.xH).
+
+Theorem C02_source_expected_sfs_sums_to_branch_length :
+  forall (expm : seq (seq R) -> seq (seq R)),
+    (forall n A, wf n n A -> wf n n (expm A) /\ mx_of n n (expm A) = mexp (mx_of n n A)) ->
+  forall (regf : seq (seq R) -> R) (n : nat) (Ss : seq (QArith_base.Q * seq (seq R))) (Slast : seq (seq R)) (alpha : seq R)
+         (ts : seq QArith_base.Q),
+    regf (List.hd (None, Slast) (all_epochs Ss Slast)).2 <> 0 ->
+    List.Forall (fun x : QArith_base.Q * seq (seq R) => wf n n x.2) Ss -> wf n n Slast ->
+    epochs_wf (seq (seq R)) Q0 Ss -> List.Forall (fun t => QArith_base.Qle Q0 t) ts ->
+  forall (nn : nat) (r0 : reward) (sts : seq state),
+    size sts = n -> (2 <= nn)%coq_nat -> reward_ok nn r0 = true -> List.Forall (fun s => bc_inv nn s) sts ->
+    acc1 expm regf Ss Slast alpha ts [seq gen_reward_get OpsR nn 1 (RProduct [:: r0; RTotalBranchLength]) s | s <- sts]
+    = SourceLinear.vsum (size ts)
+        [seq acc1 expm regf Ss Slast alpha ts [seq gen_reward_get OpsR nn 1 (RProduct [:: r0; RUnfoldedSFS i]) s | s <- sts]
+        | i <- iota 1 (nn - 1)].
+Proof. move=> expm es regf n Ss Slast alpha ts; exact: source_expected_sfs_sums_to_branch_length. Qed.
+Print Assumptions C02_source_expected_sfs_sums_to_branch_length.
+
+Theorem C02_source_expected_folded_sfs_sums_to_branch_length :
+  forall (expm : seq (seq R) -> seq (seq R)),
+    (forall n A, wf n n A -> wf n n (expm A) /\ mx_of n n (expm A) = mexp (mx_of n n A)) ->
+  forall (regf : seq (seq R) -> R) (n : nat) (Ss : seq (QArith_base.Q * seq (seq R))) (Slast : seq (seq R)) (alpha : seq R)
+         (ts : seq QArith_base.Q),
+    regf (List.hd (None, Slast) (all_epochs Ss Slast)).2 <> 0 ->
+    List.Forall (fun x : QArith_base.Q * seq (seq R) => wf n n x.2) Ss -> wf n n Slast ->
+    epochs_wf (seq (seq R)) Q0 Ss -> List.Forall (fun t => QArith_base.Qle Q0 t) ts ->
+  forall (nn : nat) (r0 : reward) (sts : seq state),
+    size sts = n -> (2 <= nn)%coq_nat -> reward_ok nn r0 = true -> List.Forall (fun s => bc_inv nn s) sts ->
+    acc1 expm regf Ss Slast alpha ts [seq gen_reward_get OpsR nn 1 (RProduct [:: r0; RTotalBranchLength]) s | s <- sts]
+    = SourceLinear.vsum (size ts)
+        [seq acc1 expm regf Ss Slast alpha ts [seq gen_reward_get OpsR nn 1 (RProduct [:: r0; RFoldedSFS i]) s | s <- sts]
+        | i <- iota 1 (Nat.div nn 2)].
+Proof. move=> expm es regf n Ss Slast alpha ts; exact: source_expected_folded_sfs_sums_to_branch_length. Qed.
+Print Assumptions C02_source_expected_folded_sfs_sums_to_branch_length.
+
+Theorem C02_source_sfs_covariances_sum_to_branch_length_variance :
+  forall (expm : seq (seq R) -> seq (seq R)),
+    (forall n A, wf n n A -> wf n n (expm A) /\ mx_of n n (expm A) = mexp (mx_of n n A)) ->
+  forall (n : nat) (Ss : seq (QArith_base.Q * seq (seq R))) (Slast : seq (seq R)) (alpha : seq R) (lam : R) (t : QArith_base.Q),
+    lam <> 0 ->
+    List.Forall (fun x : QArith_base.Q * seq (seq R) => wf n n x.2) Ss -> wf n n Slast ->
+    epochs_wf (seq (seq R)) Q0 Ss -> QArith_base.Qle Q0 t ->
+  forall (self_reward : seq R) (nn : nat) (r0 : reward) (sts : seq state),
+    size sts = n -> (2 <= nn)%coq_nat -> reward_ok nn r0 = true -> List.Forall (fun s => bc_inv nn s) sts ->
+    let rv x := [seq gen_reward_get OpsR nn 1 x s | s <- sts] in
+    \sum_(i <- iota 1 (nn - 1)) \sum_(j <- iota 1 (nn - 1))
+       src_cov expm Ss Slast alpha lam t self_reward (rv (RProduct [:: r0; RUnfoldedSFS i])) (rv (RProduct [:: r0; RUnfoldedSFS j]))
+    = src_cov expm Ss Slast alpha lam t self_reward (rv (RProduct [:: r0; RTotalBranchLength])) (rv (RProduct [:: r0; RTotalBranchLength])).
+Proof. move=> expm es n Ss Slast alpha lam t l0 h1 h2 h5 t0 sr; exact: source_sfs_covariances_sum_to_branch_length_variance. Qed.
+Print Assumptions C02_source_sfs_covariances_sum_to_branch_length_variance.
